@@ -155,8 +155,9 @@ theorem createTailG_cons {s : St} (hc : Consistent s) (pp : Path) (n : Name) (is
         (∃ X', specStat s'.disk (n :: pp) = some X' ∧ X'.view = X.view) ∧
         (isMkdir = true → ∀ c, specStat s'.disk (c :: n :: pp) = none) ∧
         (∀ q, q ≠ n :: pp → s'.disk.nodeAt 0 q = s.disk.nodeAt 0 q) ∧
-        (∀ q, q ≠ pp → (n :: pp).isSuffixOf q = false → s'.mem q = s.mem q))
-      (fun s' => Consistent s') := by
+        (∀ q, q ≠ pp → (n :: pp).isSuffixOf q = false → s'.mem q = s.mem q) ∧
+        FrameX (n :: pp) s s')
+      (fun s' => Consistent s' ∧ ViewX s s') := by
   have hl := hc.toLocal
   obtain ⟨pr, hpr, hprl, hprp, hpru, _, _, _⟩ := upper_head hc hpm hpu
   -- the upper layer exists
@@ -167,6 +168,11 @@ theorem createTailG_cons {s : St} (hc : Consistent s) (pp : Path) (n : Name) (is
       rw [this] at hpu; cases hpu
     | some L => exact ⟨L, rfl⟩
   have hu : s.disk.upper.isSome := by rw [hup]; rfl
+  have hframeX : ∀ (X' : Node) (s' : St), s'.disk = s.disk.setUpper (n :: pp) X' → FrameX (n :: pp) s s' := by
+    intro X' s' hd
+    refine FrameX.of_upper hup (L' := L.set (n :: pp) X') (by rw [hd]; simp [Disk.setUpper, hup]) _ fun q hq => ?_
+    have : q ≠ n :: pp := by intro h; rw [h, below_self] at hq; cases hq
+    simp only [Layer.set, if_neg this]
   have hL0 : s.disk.layer pr.layer = some L := by rw [hprl]; exact hup
   have hri : childReal pr n = { layer := 0, inUpper := true, path := n :: pp, whiteout := false, opq := false } := by
     simp [childReal, hprl, hprp]
@@ -183,7 +189,7 @@ theorem createTailG_cons {s : St} (hc : Consistent s) (pp : Path) (n : Name) (is
     | error e =>
       obtain ⟨s1, he, hd1, hm1⟩ := hML.err s pr L e hpru hL0 hCL hmk
       rw [bind_err he]
-      exact hc.congr hd1 hm1
+      exact ⟨hc.congr hd1 hm1, ViewX.of_disk hd1⟩
     | ok L' =>
       obtain ⟨s1, hok, hd1, hm1⟩ := hML.ok s pr L L' hpru hL0 hCL hmk
       rw [bind_ok hok]
@@ -236,7 +242,7 @@ theorem createTailG_cons {s : St} (hc : Consistent s) (pp : Path) (n : Name) (is
           (by cases hx : L (n :: pp) <;> simp_all [Node.isAbsent, Node.isDir]) c
         simpa [Disk.nodeAt, Disk.layer, hup] using this
       refine ⟨hcf, fun _ h => (by cases h), ⟨X, ?_, rfl⟩, fun _ c => ?_, fun q hq => by rw [hnf, if_neg hq],
-        fun q hq1 hq2 => ?_⟩
+        fun q hq1 hq2 => ?_, hframeX X s2 (by rw [hd2, hdisk1])⟩
       · rw [specStat_upper_single (ri := childReal pr n) hcf hmf rfl (by simp [hri]) (by simp [hri]) (by simp [hri]), hnf]; simp
       · refine specStat_child_upper_single (ri := childReal pr n) hcf hmf rfl (by simp [hri]) (by simp [hri]) c ?_
         rw [hnf, if_neg (cons_ne_self c (n :: pp))]; exact hleafL c
@@ -387,7 +393,7 @@ theorem createTailG_cons {s : St} (hc : Consistent s) (pp : Path) (n : Name) (is
       have hnf : ∀ q, s4.disk.nodeAt 0 q = if q = n :: pp then .dir mode 1 0 else s.disk.nodeAt 0 q := by
         intro q; rw [hdisk4, nodeAt_setUpper _ _ _ hu]; simp
       refine ⟨hcf, fun _ _ => ?_, ⟨.dir mode 1 0, ?_, by rw [hXd]; rfl⟩, fun _ c => ?_, fun q hq => by rw [hnf, if_neg hq],
-        fun q hq1 hq2 => ?_⟩
+        fun q hq1 hq2 => ?_, hframeX _ s4 hdisk4⟩
       · rw [hnf]; simp [Node.isOpaqueDir]
       · rw [specStat_upper_single (ri := childReal pr n) hcf hmf rfl (by simp [hri]) (by simp [hri]) (by simp [hri]), hnf]; simp
       · refine specStat_child_upper_single (ri := childReal pr n) hcf hmf rfl (by simp [hri]) (by simp [hri]) c ?_
@@ -428,7 +434,7 @@ theorem createTailG_cons {s : St} (hc : Consistent s) (pp : Path) (n : Name) (is
       have hnf : ∀ q, s3.disk.nodeAt 0 q = if q = n :: pp then X else s.disk.nodeAt 0 q := by
         intro q; rw [hd3, hdisk2, nodeAt_setUpper _ _ _ hu]; simp
       refine ⟨hcf, fun h => (by cases h), ⟨X, ?_, rfl⟩, fun h => (by cases h), fun q hq => by rw [hnf, if_neg hq],
-        fun q hq1 hq2 => ?_⟩
+        fun q hq1 hq2 => ?_, hframeX X s3 (by rw [hd3, hdisk2])⟩
       · rw [specStat_upper_single (ri := childReal pr n) hcf hmf (by simp [addUpperNode]) (by simp [hri]) (by simp [hri]) (by simp [hri]), hnf]
         simp
       · have hq3 : q ≠ n :: pp := by intro h; rw [h, below_self] at hq2; cases hq2
@@ -444,13 +450,13 @@ theorem createTail_cons {s : St} (hc : Consistent s) (pp : Path) (n : Name) (isM
       (fun _ s' => Consistent s' ∧
         (isMkdir = true → old.isSome = true → (s'.disk.nodeAt 0 (n :: pp)).isOpaqueDir = true) ∧
         (∃ X', specStat s'.disk (n :: pp) = some X' ∧ X'.view = X.view) ∧
-        (isMkdir = true → ∀ c, specStat s'.disk (c :: n :: pp) = none))
-      (fun s' => Consistent s') := by
+        (isMkdir = true → ∀ c, specStat s'.disk (c :: n :: pp) = none) ∧ FrameX (n :: pp) s s')
+      (fun s' => Consistent s' ∧ ViewX s s') := by
   have := createTailG_cons hc pp n isMkdir old (fun pr => pr.mkNode meth n X) X hX (mkLike_mkNode meth n X)
     (fun _ _ => ⟨trivial, trivial⟩) hpm hpu hlo hold
   show Outcome (createTailG pp n isMkdir old (fun pr => pr.mkNode meth n X) s) _ _
   cases hres : createTailG pp n isMkdir old (fun pr => pr.mkNode meth n X) s with
-  | ok u s' => rw [hres] at this; exact ⟨this.1, this.2.1, this.2.2.1, this.2.2.2.1⟩
+  | ok u s' => rw [hres] at this; exact ⟨this.1, this.2.1, this.2.2.1, this.2.2.2.1, this.2.2.2.2.2.2⟩
   | err e s' => rw [hres] at this; exact this
 
 /-- `copy_node_up` with everything it guarantees on success -/
@@ -550,18 +556,19 @@ theorem doCreateLike_spec (pp : Path) (n : Name) (isMkdir : Bool) (meth : Method
       (fun _ s' => Consistent s' ∧
         (isMkdir = true → (∃ o, s.mem (n :: pp) = some o) → (s'.disk.nodeAt 0 (n :: pp)).isOpaqueDir = true) ∧
         (∃ X', specStat s'.disk (n :: pp) = some X' ∧ X'.view = X.view) ∧
-        (isMkdir = true → ∀ c, specStat s'.disk (c :: n :: pp) = none))
-      (fun s' => Consistent s') := by
+        (isMkdir = true → ∀ c, specStat s'.disk (c :: n :: pp) = none) ∧
+        (DirNode pp s → FrameX (n :: pp) s s'))
+      (fun s' => Consistent s' ∧ (DirNode pp s → ViewX s s')) := by
   have hl := hc.toLocal
   unfold doCreateLike
   rw [bind_ok (hasUpper_eval s)]
   cases hupb : s.disk.upper.isSome with
-  | false => simp only [Bool.not_false, if_true]; exact hc
+  | false => simp only [Bool.not_false, if_true]; exact ⟨hc, fun _ => ViewX.refl s⟩
   | true =>
     simp only [Bool.not_true, Bool.false_eq_true, if_false]
     rw [bind_ok (getNode_ok hpm)]
     by_cases hw : pm.whiteout = true
-    · simp only [hw, if_true]; exact hc
+    · simp only [hw, if_true]; exact ⟨hc, fun _ => ViewX.refl s⟩
     · simp only [Bool.not_eq_true] at hw
       simp only [hw, Bool.false_eq_true, if_false]
       -- the old node of that name, if any
@@ -612,7 +619,7 @@ theorem doCreateLike_spec (pp : Path) (n : Name) (isMkdir : Bool) (meth : Method
       · rw [bind_ok hck]
         have hcp := copyNodeUp_spec pp s hc
         cases hres : copyNodeUp pp s with
-        | err e s' => rw [hres] at hcp; rw [bind_err hres]; exact hcp.1
+        | err e s' => rw [hres] at hcp; rw [bind_err hres]; exact ⟨hcp.1, fun _ => hcp.2⟩
         | ok u s2 =>
           rw [hres] at hcp
           rw [bind_ok hres]
@@ -627,10 +634,11 @@ theorem doCreateLike_spec (pp : Path) (n : Name) (isMkdir : Bool) (meth : Method
               | none => simpa [hk2] using holdp
               | some o => exact ⟨by rw [hq2]; exact holdp, howh o rfl⟩)
           cases hres2 : createTail pp n isMkdir old meth X s2 with
-          | err e s3 => rw [hres2] at hct; exact hct
+          | err e s3 => rw [hres2] at hct; exact ⟨hct.1, fun hdn => (hcp.view hdn).trans hct.2⟩
           | ok u2 s3 =>
             rw [hres2] at hct
-            refine ⟨hct.1, fun hmk ⟨o, ho⟩ => hct.2.1 hmk ?_, hct.2.2⟩
+            refine ⟨hct.1, fun hmk ⟨o, ho⟩ => hct.2.1 hmk ?_, hct.2.2.1, hct.2.2.2.1,
+              fun hdn => FrameX.after (hcp.view hdn) hct.2.2.2.2⟩
             cases old with
             | some o' => rfl
             | none =>
@@ -638,7 +646,7 @@ theorem doCreateLike_spec (pp : Path) (n : Name) (isMkdir : Bool) (meth : Method
               obtain ⟨pm', hpm', hn'⟩ := hl.reach n pp o ho
               rw [hpm] at hpm'; cases hpm'
               exact absurd hn' holdp
-      · rw [bind_err hck]; exact hc
+      · rw [bind_err hck]; exact ⟨hc, fun _ => ViewX.refl s⟩
 
 theorem doCreateLike_cons (pp : Path) (n : Name) (isMkdir : Bool) (meth : Method) (X : Node)
     (hX : NewEntry isMkdir X) :
@@ -649,7 +657,7 @@ theorem doCreateLike_cons (pp : Path) (n : Name) (isMkdir : Bool) (meth : Method
   have := doCreateLike_spec pp n isMkdir meth X hX s hc hpm hlo
   cases hres : doCreateLike pp n isMkdir (mkChildOf meth n X) s with
   | ok u s' => rw [hres] at this; exact this.1
-  | err e s' => rw [hres] at this; exact this
+  | err e s' => rw [hres] at this; exact this.1
 
 /-! ### whole operations: create, mkdir, mknod, symlink -/
 
